@@ -178,6 +178,11 @@ Theorem C12_power_cells_refine_values : forall k h d, (d < next h)%nat ->
 Proof. exact power_cells_refine_values. Qed.
 Print Assumptions C12_power_cells_refine_values.
 
+(* when it does not fail, Dec.Power is the unchecked value function d_power of Base/DecModel.v (the one other properties use) *)
+Theorem C12_dec_power_is_decmodel_power : forall d p v, 0 <= p < 2 ^ 64 -> d_power_v d p = Some v -> v = d_power d p.
+Proof. exact d_power_v_unchecked. Qed.
+Print Assumptions C12_dec_power_is_decmodel_power.
+
 (* mutating and non-mutating forms return the same outcome (value or panic kind) on distinct cells *)
 Theorem C12_bigdec_mut_forms_agree : forall h d d2, valid2 h d d2 ->
   obs_of (AddMut d d2 h) = obs_of (Add d d2 h) /\
